@@ -1,6 +1,6 @@
 (** Single dispatch point: the extracted driver and the in-Coq cross-check both call this. *)
 From Coq Require Import ZArith QArith String List.
-From QS Require Import theories.Val theories.EntryBroker theories.EntryCal.
+From QS Require Import theories.Val theories.EntryBroker theories.EntryCal theories.EntryPcm.
 Import ListNotations.
 Open Scope string_scope.
 
@@ -13,4 +13,8 @@ Definition dispatch (name : string) (v : val) : val :=
   else if String.eqb name "sim_events" then entry_sim_events v
   else if String.eqb name "schedule" then entry_schedule v
   else if String.eqb name "civil" then entry_civil v
+  else if String.eqb name "sizer" then entry_sizer v
+  else if String.eqb name "universe" then entry_universe v
+  else if String.eqb name "optimiser" then entry_optimiser v
+  else if String.eqb name "pcm" then entry_pcm v
   else VL [VS "UNKNOWN_ENTRY"].
